@@ -64,6 +64,11 @@ EvPost(u, t, op, ev, fl, ff, thr, rc, tpd) ==
                    /\ UNCHANGED fired
               [] OTHER -> FALSE
 
+(* registrations added to the pool's VIRTUAL thread live in a queue that every worker polls: whichever worker finds it
+   ready runs the callback *)
+VirtualOwner == 50
+OwnerOk(t, u) == IF ereg[u].owner = VirtualOwner THEN TRUE ELSE t = ereg[u].owner
+
 (* loop.gate: the owner's loop received a kernel report for u and tests TPDATA_F_DISABLED.
    `dis`/`set` are what the loop read; they may be stale only while another thread is inside a call on u *)
 EvGate(t, u, dis, set) ==
@@ -84,7 +89,7 @@ EvDeliver(t, u, ev) ==
     /\ ereg[u].inflight                                           \* (C06) only past the gate: a disabled event never fires
     /\ ereg[u].present \/ ereg[u].armedBy = "foreign-del"          \* (C06) a deleted / consumed one-shot event is gone; only a
                                                                   \*        report already dequeued when ANOTHER thread deleted may still arrive
-    /\ ereg[u].present => t = ereg[u].owner /\ ev = ereg[u].ev    \* (C06) on the owning thread, as registered
+    /\ ereg[u].present => OwnerOk(t, u) /\ ev = ereg[u].ev        \* (C06) on the owning thread, as registered
     /\ ereg' = [ereg EXCEPT ![u].inflight = FALSE, ![u].armedBy = IF @ = "foreign-del" THEN "none" ELSE @,
                             ![u].dis = IF @ \/ (ereg[u].present /\ (ereg[u].fl \div 2) % 2 = 1) THEN TRUE ELSE FALSE,  \* DISPATCH
                             ![u].present = IF ereg[u].present /\ ereg[u].fl % 2 = 1 THEN FALSE ELSE @]                \* ONESHOT
